@@ -193,6 +193,12 @@ func judge(c Case, w *vkit.W) {
 			gy, gm, gd := got.Date()
 			w.Fail(c, "from-time", fmt.Sprintf("FromTime(%v) = %d-%d-%d (method: %v), the time shows %d-%d-%d in its own location", t, gy, int(gm), gd, viaMethod, wy, wm, wd))
 		}
+		// Scan is the third way a time.Time becomes a date
+		viaScan := date.New(1234, 5, 6)
+		if err := viaScan.Scan(t); err != nil || !is(viaScan, wy, wm, wd) {
+			gy, gm, gd := viaScan.Date()
+			w.Fail(c, "scan", fmt.Sprintf("Scan(%v) -> %d-%d-%d, %v; the time shows %d-%d-%d in its own location", t, gy, int(gm), gd, err, wy, wm, wd))
+		}
 	default:
 		w.Fail(c, "bad-case", "unknown kind "+c.Kind)
 	}
@@ -347,6 +353,43 @@ func TestCheck(t *testing.T) {
 							if mm == 1 && dd == 0 && addBase[i].D == 31 && w.WantSample() {
 								w.Sample(c)
 							}
+						}
+					}
+				}
+			}
+		})
+	})
+
+	// Phase C2: single-component steps from every day 27..31 of every month of every year of a window: where a step lands depends
+	// on the length of the target month in the target year, whatever the year next to it looks like.
+	r.Phase("C2: Add of pure month / year / day steps (-14..14 months, -5..5 years, -3..3 days) from days 27-31 of every month of the years -5..2405 and 9990..9999", func() {
+		var ys []int64
+		for y := int64(-5); y <= 2405; y++ {
+			ys = append(ys, y)
+		}
+		for y := int64(9990); y <= 9999; y++ {
+			ys = append(ys, y)
+		}
+		r.Parallel(int64(len(ys)), 8, func(w *vkit.W, lo, hi int64) {
+			for i := lo; i < hi; i++ {
+				y := ys[i]
+				for m := 1; m <= 12; m++ {
+					for d := 27; d <= ref.DaysIn(y, m); d++ {
+						a := YMD{y, m, d}
+						for mm := -14; mm <= 14; mm++ {
+							c := Case{Kind: "add", A: a, Months: mm}
+							judge(c, w)
+							w.Eval(mm != 0)
+						}
+						for yy := -5; yy <= 5; yy++ {
+							c := Case{Kind: "add", A: a, Years: yy, Months: int(y+int64(m)+int64(d)) % 3}
+							judge(c, w)
+							w.Eval(true)
+						}
+						for dd := -3; dd <= 3; dd++ {
+							c := Case{Kind: "add", A: a, Days: dd}
+							judge(c, w)
+							w.Eval(dd != 0)
 						}
 					}
 				}
